@@ -465,6 +465,11 @@ impl<'a> M<'a> {
                             self.out.calls.push(PCall { name: f.clone(), arg: format!("{x:?}"), loc: None });
                             match vf::apply_try_from(f, &x) {
                                 Ok(y) => Some(y),
+                                Err(e) if e.name == "<same error type>" => {
+                                    // reported by the user function at the origin, handed over at the container
+                                    self.report_plus(PKind::Unexpected { facts: vec![e.msg], class: "custom" }, &vec![], loc);
+                                    None
+                                }
                                 Err(e) => {
                                     self.report(PKind::Foreign { name: e.name.to_string(), msg: e.msg }, loc);
                                     None
